@@ -15,7 +15,10 @@ while read -r P; do
   [ -z "$P" ] && continue
   git -C $D/repo checkout -q -- .
   git -C $D/repo apply "$P" || { echo -e "$P\tAPPLY-FAILED" >> $OUT; continue; }
-  for c in $CHECKS; do
+  LIST_C="$CHECKS"
+  # OWN = the check of the property the patch directory is named after (.../C07-s3/patch.diff -> C07)
+  [ "$CHECKS" = "OWN" ] && LIST_C=$(basename $(dirname "$P") | cut -c1-3)
+  for c in $LIST_C; do
     timeout 900 $D/verif/check $c --tier quick > $D/last.log 2>&1; rc=$?
     kind=$(grep -m1 -E "^   [a-z0-9-]+:" $D/last.log | sed 's/^ *//' | cut -c1-300)
     [ $rc -eq 2 ] && kind=$(grep -m1 -E "machinery|error(\[|:)|panicked" $D/last.log | cut -c1-300)
